@@ -859,16 +859,28 @@ static int _yr_re_emit(
     //              split L1, L2
     //          L2:
     //
+    // L1 is the first byte of the code for e. It is NOT instruction_ref:
+    // for an e that starts with an optional item, like (a?b)+, the recorded
+    // instruction is the one after the optional's split (loops would skip
+    // the split), and for an e whose first item emits no code, like
+    // (a{0}b)+ or (a{0})+, it is the null reference.
+    bookmark_2 = yr_arena_get_current_offset(
+        emit_context->arena, YR_RE_CODE_SECTION);
+
     FAIL_ON_ERROR(_yr_re_emit(
         emit_context, re_node->children_head, flags, &instruction_ref));
 
     bookmark_1 = yr_arena_get_current_offset(
         emit_context->arena, YR_RE_CODE_SECTION);
 
-    if (instruction_ref.offset - bookmark_1 < INT16_MIN)
+    // e produced no code (it only matches the empty string): e+ is e.
+    if (bookmark_1 == bookmark_2)
+      break;
+
+    if (bookmark_1 - bookmark_2 > -(INT16_MIN))
       return ERROR_REGULAR_EXPRESSION_TOO_LARGE;
 
-    jmp_offset = (int16_t) (instruction_ref.offset - bookmark_1);
+    jmp_offset = (int16_t) -((int32_t) (bookmark_1 - bookmark_2));
 
     FAIL_ON_ERROR(_yr_emit_split(
         emit_context,
